@@ -323,6 +323,9 @@ def pay_strategies(hashed, tier):
     add("merchant balance -1 (amount = -(balance+1))", {"pay.mb": {"m": {"pt": 5, "st": 6, "cl": 6, "d1": 0}}}, amount=-51)
     add("customer balance 2^63+99 (huge negative amount)", {"pay.cb": {"m": {"pt": 0, "st": 6, "cl": 6, "d1": 1}}, "pay.mb": {"m": {"pt": 5, "st": 6, "cl": 6, "d1": 0}}},
         amount=-(2**63 - 1), range_cb=2**63 - 1)
+    # a CREDITED balance leaving the range at the top (the debited one stays in range): only its own range constraint can refuse
+    add("merchant balance 2^63+9 (credited above the range)", {"pay.mb": {"m": {"pt": 1, "st": 2, "cl": 2, "d1": 0}}}, cb=100, mb=2**63 - 1, amount=10)
+    add("customer balance 2^63+9 (credited above the range by a refund)", {"pay.cb": {"m": {"pt": 1, "st": 2, "cl": 2, "d1": 0}}}, cb=2**63 - 1, mb=100, amount=-10)
     add("customer balance -1, range proof unlinked", {"pay.cb": {"m": {"pt": 0, "st": 6, "cl": 6, "d1": 0}, "t": {"d1": 2}}}, amount=101, unlink=["pt3", "st3"])
     # responses not those of the committed values (see the establish catalogue): single and compensating lies
     for slot, nm, cl_name in ((0, "channel id", "pay.cid"), (2, "new lock", "pay.newlock"), (3, "customer balance", "pay.cb"), (4, "merchant balance", "pay.mb")):
